@@ -209,4 +209,15 @@ CLAIMS = {
         'note': 'Trusted: clang 14 CFG and type checker (cast chains), tools/grfacts, rules/c18.py, rules/tagnorm.py, rules/dom.py.',
         'technique': 'CFG failure-atomicity / dominance rules + cast-chain typing + must-pass on the chunk bump + sibling tag-normalisation rule',
     },
+    'C10': {
+        'text': 'That all option combinations and both table sources produce identical segments is a run-time fact and NOT decided.  Decided, as '
+                'its structural conditions: the option word reaches only the tabled option tests (preloadGlyphs twice, cacheCmap once) and '
+                'forwarding calls along the load chain and is never stored; the eager and the lazy glyph path both (and only they) produce '
+                'glyphs through Loader::read_glyph / read_box and are the only writers of the cache cells; cells of the lazily filled cache '
+                'are read only by the loader and the tabled accessors that run on already-loaded glyphs (a predicate evaluated before the load '
+                'must not look at them); the file face is distinguished from a callback face only for ownership; and the shared C13 rules '
+                'that the direct and the cached cmap select sub-tables and route planes identically.',
+        'note': 'Trusted: clang 14 CFG, tools/grfacts, rules/c10.py, rules/c13.py.  Value-level lookup arithmetic inside TtfUtil is out of reach.',
+        'technique': 'parameter taint (use classification) + sibling / who-may-call / who-may-read tables over resolved declarations',
+    },
 }
